@@ -25,6 +25,20 @@ Theorem C20_marginal_exact :
 Proof. intros. apply marginal_exact; assumption. Qed.
 Print Assumptions C20_marginal_exact.
 
+(** the step-by-step vector recursion (what the scan runs, and what the
+    correspondence evaluates on long sequences) computes exactly these messages,
+    hence the brute-force marginal, for sequences of every length *)
+Theorem C20_iterative_forward_exact :
+  forall K pi0 A E ys, ys <> [] ->
+    alpha_vec K pi0 A E ys = map (alpha K pi0 A E (rev ys)) (seq 0 K) /\
+    marginal_vec K pi0 A E ys = sumL (map (fun p => joint pi0 A E p (rev ys)) (paths K (length ys))).
+Proof.
+  intros K pi0 A E ys H. split; [apply alpha_vec_correct; exact H|].
+  rewrite marginal_vec_correct by exact H. rewrite <- (rev_length ys).
+  apply marginal_exact. intro Hr. apply H. rewrite <- (rev_involutive ys), Hr. reflexivity.
+Qed.
+Print Assumptions C20_iterative_forward_exact.
+
 Theorem C20_filter_normalised :
   forall K pi0 A E rys, marginal K pi0 A E rys <> 0 -> sumK K (filtering K pi0 A E rys) = 1.
 Proof. intros. apply filtering_normalised; assumption. Qed.
